@@ -486,8 +486,11 @@ class Sim:
 
     def invoke(self, develop, argv, abort_at=None, real_pool=False, timeout=120):
         import time
-        if self.deadline is not None and time.time() > self.deadline:
-            raise OutOfTime()
+        if self.deadline is not None:
+            if time.time() > self.deadline:
+                raise OutOfTime()
+            # an invocation still running when the worker's deadline has passed is given up (no verdict)
+            timeout = min(timeout, max(8.0, self.deadline - time.time() + 8.0))
         self.n += 1
         base = os.path.join(self.scratch, "inv%d" % self.n)
         job = {"cwd": self.root, "develop": develop, "argv": list(argv), "abort_at": abort_at, "out": base + ".out",
